@@ -90,7 +90,7 @@ func c09FkConstraints(rep *report.Report) {
 				}
 				match := func(reports []c09Report, items []issue, fixMode bool) string {
 					if len(reports) != len(items) {
-						return fmt.Sprintf("%d reports %q, expected %d", len(reports), reports, len(items))
+						return fmt.Sprintf("%d reports %v, expected %d", len(reports), reports, len(items))
 					}
 					for _, it := range items {
 						found := false
@@ -109,7 +109,7 @@ func c09FkConstraints(rep *report.Report) {
 							}
 						}
 						if !found {
-							return fmt.Sprintf("nothing reported for %v (reports: %q)", it.needle, reports)
+							return fmt.Sprintf("nothing reported for %v (reports: %v)", it.needle, reports)
 						}
 					}
 					return ""
